@@ -27,6 +27,7 @@ def sh(cmd, cwd=None, env=None, timeout=3600):
 def goenv():
     e = dict(os.environ)
     e["GOPROXY"] = "off"
+    e.setdefault("DBUS_SESSION_BUS_ADDRESS", "disabled:")
     e.pop("GOFLAGS", None)
     e.pop("GOWORK", None)
     return e
@@ -81,6 +82,7 @@ def run_one(mid, checks, confirm):
                 os.remove(os.path.join(wt, rel))
             res["confirmed"] = conf
         env = dict(os.environ)
+        env.setdefault("DBUS_SESSION_BUS_ADDRESS", "disabled:")
         env.update({"VERIF_REPO": wt, "VERIF_CACHE": cache, "VERIF_EVIDENCE": evd})
         for c in checks(own):
             rc, out = sh("./check %s --tier quick" % c, cwd=VERIF, env=env, timeout=3600)
